@@ -157,6 +157,11 @@ CONTRACTS += [
     ),
 ]
 
+# the dummy-verify cache must follow the configuration (contract shared with C10)
+from contracts.c10 import CONTRACTS as _C10  # noqa: E402
+
+CONTRACTS += [c for c in _C10 if c.id.startswith("CryptContext.load[")]
+
 BOUNDED = [Bounded("c18", "harness/c18.py", descr="contexts x original hashes x disable/enable sequences", timeout=600)]
 
 MUTANTS = [
